@@ -57,6 +57,10 @@ type Options struct {
 	// NoSettle: return as soon as the command serves (both listeners taken) even if its start path is
 	// still running - only meaningful for a command that listens before it has finished starting
 	NoSettle bool
+	// HoldFirstReload: the Prometheus stub holds the first /-/reload request it gets (the one of the
+	// command's start path in file mode) until ReleaseFirstReload; Start then returns as soon as the
+	// command either serves or sits in that request
+	HoldFirstReload bool
 }
 
 // Sidecar is one running sidecar instance ("process"): the real `kvass sidecar` command
@@ -81,6 +85,9 @@ type Sidecar struct {
 	stop    chan struct{}
 	ready   chan struct{}
 	exited  chan struct{}
+	inFirst chan struct{} // closed when the held first reload has arrived
+	gate    chan struct{} // closed to let it go on
+	held    bool
 	nListen int
 	stopped bool
 }
@@ -123,6 +130,11 @@ func (r *Router) RoundTrip(req *http.Request) (*http.Response, error) {
 func (s *Sidecar) prometheus(w http.ResponseWriter, req *http.Request) {
 	switch {
 	case req.Method == "POST" && req.URL.Path == "/-/reload":
+		if s.Opt.HoldFirstReload && !s.held {
+			s.held = true
+			close(s.inFirst)
+			<-s.gate
+		}
 		s.Reloads++
 		if s.OnReload != nil {
 			s.OnReload()
@@ -195,7 +207,7 @@ func Start(opt Options) *Sidecar {
 		http.DefaultTransport = &Router{Next: http.DefaultTransport}
 	}
 	s := &Sidecar{Opt: opt, OutFile: filepath.Join(opt.Dir, "prometheus_injected.yaml"),
-		stop: make(chan struct{}), ready: make(chan struct{}), exited: make(chan struct{})}
+		stop: make(chan struct{}), ready: make(chan struct{}), exited: make(chan struct{}), inFirst: make(chan struct{}), gate: make(chan struct{})}
 	promHost := opt.PromHost
 	if promHost == "" {
 		promHost = "127.0.0.1:9090"
@@ -248,10 +260,16 @@ func Start(opt Options) *Sidecar {
 	}()
 	select {
 	case <-s.ready:
+	case <-s.inFirst:
 	case <-s.exited:
 		if s.LoadErr == nil {
 			s.LoadErr = fmt.Errorf("sidecar command returned before serving")
 		}
+	}
+	if !s.Serving() {
+		// returned because the first reload is held (or the command ended): the listeners, if any, come
+		// later and still belong to this sidecar - ReleaseFirstReload finishes the start
+		return s
 	}
 	mu.Lock()
 	starting = nil
@@ -261,6 +279,34 @@ func Start(opt Options) *Sidecar {
 		synctest.Wait()
 	}
 	return s
+}
+
+// Serving: both listeners are up.
+func (s *Sidecar) Serving() bool {
+	select {
+	case <-s.ready:
+		return true
+	default:
+		return false
+	}
+}
+
+// ReleaseFirstReload lets a held first reload go on and waits until the command serves (or has ended).
+func (s *Sidecar) ReleaseFirstReload() {
+	select {
+	case <-s.gate:
+	default:
+		close(s.gate)
+	}
+	select {
+	case <-s.ready:
+	case <-s.exited:
+	}
+	mu.Lock()
+	if starting == s {
+		starting = nil
+	}
+	mu.Unlock()
 }
 
 // Settle waits until the command (and everything else in the bubble) is quiescent.
@@ -289,6 +335,9 @@ func (s *Sidecar) Stop() {
 		return
 	}
 	s.stopped = true
+	if starting == s {
+		starting = nil
+	}
 	ph := s.Opt.PromHost
 	if ph == "" {
 		ph = "127.0.0.1:9090"
@@ -303,6 +352,11 @@ func (s *Sidecar) Stop() {
 		}
 	}
 	mu.Unlock()
+	select {
+	case <-s.gate:
+	default:
+		close(s.gate)
+	}
 	close(s.stop)
 	<-s.exited
 }
